@@ -169,6 +169,26 @@ def replay(ctx: Ctx, states, origin):
                     got = model.get_parameter(path)
                     if classify(kind, got) != op["vclass"]:
                         return bad("model_roundtrip", f"model.get_parameter('{path}') = {got!r} after setting {op['vclass']}", k)
+            elif a == "Move":
+                o = objs[op["id"]]
+                try:
+                    objs[op["par"]].add(o)
+                    res = "ok"
+                except (ValueError, TypeError):
+                    res = "error"
+                if res != op["res"]:
+                    return bad("move", f"adding the removed parameter {op['id']} to map {op['par']} -> {res}, specification {op['res']}", k)
+            elif a == "ModelGet":
+                path = ".".join(op["path"])
+                try:
+                    v = model.get_parameter(path)
+                    res = "ok"
+                except KeyError:
+                    res, v = "KeyError", None
+                if res != op["res"]:
+                    return bad("model_get", f"model.get_parameter('{path}') -> {res}, specification {op['res']}", k)
+                if res == "ok" and nodes[op["id"] - 1]["kind"] != "map" and classify(nodes[op["id"] - 1]["kind"], v) != op["val"]:
+                    return bad("model_get", f"model.get_parameter('{path}') = {v!r}, specification class {op['val']}", k)
             elif a == "Get":
                 path = ".".join(op["path"])
                 try:
@@ -212,7 +232,7 @@ def replay(ctx: Ctx, states, origin):
             nd = nodes[i - 1]
             if nd["kind"] == "map" and under_alive(i):
                 kids = [j for j in alive if nodes[j - 1]["parent"] == i]
-                want = [nodes[j - 1]["key"] for j in sorted(kids, key=lambda j: (nodes[j - 1]["prio"], j))]
+                want = [nodes[j - 1]["key"] for j in sorted(kids, key=lambda j: (nodes[j - 1]["prio"], nodes[j - 1]["seq"]))]
                 got = list(objs[i].value.keys())
                 if got != want:
                     return bad("listing", f"children of map {i} listed as {got}, specification (priority, then insertion) {want}", k)
@@ -224,6 +244,10 @@ def replay(ctx: Ctx, states, origin):
                     j = nodes[j - 1]["parent"]
                 pth.reverse()
                 try:
+                    if nd["kind"] != "map":
+                        mv = model.get_parameter(".".join(pth))
+                        if classify(nd["kind"], mv) != nd["val"]:
+                            return bad("model_get", f"model.get_parameter('{'.'.join(pth)}') = {mv!r}, the parameter at that key holds class {nd['val']}", k)
                     if root.get(".".join(pth)) is not objs[i]:
                         return bad("reach", f"get('{'.'.join(pth)}') is not node {i}", k)
                     if objs[i].extended_key() != "root." + ".".join(pth):
@@ -251,7 +275,7 @@ def run(ctx: Ctx):
     ctx.add_tlc("Params (map,int,str; 4 nodes, 4 steps)", r)
     if not r.ok:
         raise tlc.MachineryError(f"Params.tla violates {r.violated}")
-    for a in ("NewAny", "SetAny", "ModelSet", "Get", "Remove"):
+    for a in ("NewAny", "SetAny", "ModelSet", "Get", "Remove", "MoveAny", "ModelGet"):
         if r.coverage.get(a, (0, 0))[0] == 0:
             raise tlc.MachineryError(f"vacuity: {a}")
     if not q:
